@@ -24,7 +24,7 @@ CODEMODS = [
     {"id": "pixee:python/sandbox-process-creation", "pkg": "security", "alt": "SECURITY", "src": space.PROGRAMS["subprocess"]},
     # two codemods of one run that need the same package: it must be declared once
     {"id": "pixee:python/url-sandbox,pixee:python/sandbox-process-creation", "pkg": "security", "alt": "Security",
-     "src": space.PROGRAMS["requests"] + space.PROGRAMS["subprocess"].replace("import subprocess\n", "import subprocess  # second trigger\n")},
+     "src": space.PROGRAMS["both"]},
 ]
 
 
